@@ -39,7 +39,7 @@ PROBES = [f"kv-split-top{a}-old{b}-new{c}" for a in (0, 1) for b in (0, 1) for c
     "value-is-a-node-body",
     "rolled-back-by-root-hash-assignment",
 ]
-FAULTS = ["write-fail-applied", "write-fail-not-applied", "withhold-node", "crash-reopen"]
+FAULTS = ["write-fail-applied", "write-fail-not-applied", "withhold-node", "crash-reopen", "store-lost-writes"]
 COMPONENTS = {
     "real": ["trie.binary.BinaryTrie get/exists/set/delete/delete_subtrie/dict API", "trie.utils.nodes binary node encoders", "trie.utils.binaries"],
     "stub": ["SimDB mapping with failing writes and withheld nodes", "writer / reader / operator actors"],
@@ -276,7 +276,21 @@ class World(BWorld):
             self.st.fault("crash-reopen")
             return "ok"
         root = self.order[j % len(self.order)]
-        if cmd.get("assign"):
+        if cmd.get("lost"):
+            # lost writes: the store falls back to what it held when `root` was current;
+            # roots that are no longer backed by the store are forgotten by the client too
+            self.db.restore(self.snaps[root])
+            raw = self.db.raw()
+            keep = [r for r in self.order if all(h in raw for h in RefBin(self.registry[r]).nodes)]
+            if root not in keep:
+                self.viol("old-root-wrong-contents", f"root {root.hex()} was the trie's root, yet the store as it was at that moment lacks some of its nodes")
+            for r in self.order:
+                if r not in keep:
+                    del self.registry[r]
+                    self.snaps.pop(r, None)
+            self.order = keep
+            self.st.fault("store-lost-writes")
+        if cmd.get("assign") or cmd.get("lost"):
             # the live handle is rolled back by assigning its public root_hash attribute
             self.trie.root_hash = fresh(root)
             self.st.probe("rolled-back-by-root-hash-assignment")
@@ -330,7 +344,7 @@ def add_fault(rng, cmd):
     r = rng.random()
     c = dict(cmd)
     if r < 0.5:
-        c["fw"] = [rng.randint(1, 6), rng.randrange(2)]
+        c["fw"] = [rng.randint(1, 6), rng.randrange(2), rng.choice("EKO")]
     elif r < 0.85:
         c["whi"] = [rng.randrange(1000) for _ in range(rng.randint(1, 3))]
     else:
